@@ -1,4 +1,5 @@
 import Driver.C04
+import Driver.C19S
 import Driver.C03Names
 import Driver.C09P
 import Driver.C13L
@@ -48,6 +49,8 @@ partial def loop (h : IO.FS.Stream) (out : IO.FS.Stream) (f : String → String)
   loop h out f
 
 def modes : List (String × (String → String)) := [
+  ("c20c", C20.handleC),
+  ("c19s", C19S.handle),
   ("c03fn", C03Names.handleFn),
   ("c03nam", C03Names.handleNam),
   ("c09p", C09P.handle),
